@@ -360,6 +360,11 @@ class EditDistance(SequenceEdit):
                     pass
                 assert self.is_complete()
                 if self.__edits is None:
+                    # The lower right cell is the only one that is not fully tightened while the matrix is built,
+                    # but the back-trace below relies on its definitive cost:
+                    last_edit = self.edit_matrix[-1][-1]
+                    while not last_edit.bounds().definitive() and last_edit.tighten_bounds():
+                        pass
                     assert len(self.edit_matrix) == len(self.to_seq) + 1
                     assert len(self.edit_matrix[0]) == len(self.from_seq) + 1
                     row, col = len(self.to_seq), len(self.from_seq)
